@@ -255,7 +255,13 @@ impl SDJWTVerifier {
         }
 
         self.duplicate_hash_check = Vec::new();
-        let claims: Value = self.sd_jwt_payload.clone().into_iter().collect();
+        // `_sd_alg` is the hash algorithm marker at the top level only; below it is an ordinary claim name
+        let claims: Value = self
+            .sd_jwt_payload
+            .clone()
+            .into_iter()
+            .filter(|(key, _)| key != DIGEST_ALG_KEY)
+            .collect();
         self.unpack_disclosed_claims(&claims)
     }
 
@@ -305,7 +311,7 @@ impl SDJWTVerifier {
         let mut disclosed_claims: Map<String, Value> = serde_json::Map::new();
 
         for (key, value) in nested_sd_jwt_claims {
-            if key != SD_DIGESTS_KEY && key != DIGEST_ALG_KEY {
+            if key != SD_DIGESTS_KEY {
                 disclosed_claims.insert(key.to_owned(), self.unpack_disclosed_claims(value)?);
             }
         }
